@@ -10,9 +10,11 @@ namespace {
 struct Mon {
   int occupancy = 0, max_occ = 0, entries = 0;
   int order[8]; int norder = 0;
+  int starting = -1;              // id of the waiter whose start() is executing right now (FIFO harness)
+  bool in_own_start[8] = {};      // was the grant delivered inside the waiter's own start()?
   void enter(int who) {
     ++occupancy; ++entries; if (occupancy > max_occ) max_occ = occupancy;
-    if (norder < 8) order[norder++] = who;
+    if (norder < 8) { in_own_start[norder] = (starting == who); order[norder++] = who; }
     vmc::check(occupancy == 1, "C15", "mutual-exclusion", "two parties hold the async_mutex at the same time");
   }
   void leave() { --occupancy; }
@@ -111,8 +113,10 @@ VMC_HARNESS(mtx_v2_loop, "C15,C01,C11") {
   vmc::note(std::string(1, how));
 }
 
-// FIFO: one thread queues waiters 0,1,2 in program order; another unlocks; grants must follow queue order.
-// arg0: 0 = v2, 1 = v1
+// FIFO among queued waiters: one thread starts waiters 0,1,2 in program order while another unlocks.  A waiter that
+// finds the mutex free inside its own start() takes it at once (the mutex allows barging, as try_lock does) - that is
+// not queueing.  What must never happen is that a waiter which was *handed* the lock by an unlock (grant outside its
+// own start()) overtakes a waiter that had queued earlier and is still waiting.
 template <class M>
 static void fifo_body() {
   M m; Mon mon;
@@ -125,12 +129,18 @@ static void fifo_body() {
     m.unlock();
     for (int k = 0; k < 3; ++k) { vmc::wait_until([&] { return mon.occupancy == 1; }); mon.leave(); m.unlock(); }
   });
-  start(op0); start(op1); start(op2);
+  mon.starting = 0; start(op0); mon.starting = 1; start(op1); mon.starting = 2; start(op2); mon.starting = -1;
   unlocker.join();
   vmc::check(cnt[0] == 1 && cnt[1] == 1 && cnt[2] == 1, "C15,C01", "lost-waiter", "a queued async_lock never completed");
-  vmc::check(mon.order[0] == 0 && mon.order[1] == 1 && mon.order[2] == 2, "C15", "fifo", "waiters were not granted the lock in the order they queued");
+  // position of each waiter in the grant sequence
+  int pos[3] = {-1, -1, -1};
+  for (int k = 0; k < 3; ++k) pos[mon.order[k]] = k;
+  for (int x = 0; x < 3; ++x) for (int y = 0; y < x; ++y)
+    if (pos[x] < pos[y] && !mon.in_own_start[pos[x]])
+      vmcrt::fail("C15", "fifo", ("waiter " + std::to_string(x) + " was handed the lock by an unlock before waiter " + std::to_string(y) + ", which had queued earlier: grant order " +
+                                  std::to_string(mon.order[0]) + "," + std::to_string(mon.order[1]) + "," + std::to_string(mon.order[2])).c_str());
   vmc::check(m.try_lock(), "C15", "lock-leaked", "mutex still held at the end");
-  vmc::note("ok");
+  vmc::note(std::to_string(mon.order[0]) + std::to_string(mon.order[1]) + std::to_string(mon.order[2]));
 }
 VMC_HARNESS(mtx_fifo_v2, "C15") { fifo_body<v2::async_mutex>(); }
 VMC_HARNESS(mtx_fifo_v1, "C15") { fifo_body<v1::async_mutex>(); }
